@@ -14,7 +14,7 @@ META = {
 # ---------------------------------------------------------------------------------------
 # shared site analysis for the writer (also used by C02, C09, C11, C15, C18)
 
-def classify_block_writes(ck, rule, body):
+def classify_block_writes(ck, rule, body, _depth=0):
     """For every compress_and_write_block call in `body` decide how the block is recorded in its
     parent index: returns list of dicts {site, bw, kind: paired|root, insert_site, count_site}"""
     out = []
@@ -45,6 +45,31 @@ def classify_block_writes(ck, rule, body):
             rec["kind"] = "paired" if _only_bypass_is_absent_parent(body, isite, site, ia[0]) else ("root" if _guarded_by_empty_head(body, site, bw) else "unpaired")
         else:
             rec["kind"] = "root" if _guarded_by_empty_head(body, site, bw) else "unpaired"
+        if rec["kind"] == "unpaired" and _depth == 0:
+            # one write site may serve both roles, decided by a flag computed from `last_key()`:
+            # decide the two cases separately on the body specialised to last_key() = Some / None
+            def has_key(e, enum, _bws=bws):
+                if not (enum == "std::option::Option" and e.k == "discr"):
+                    return False
+                k = e.a[0].strip()
+                return k.k == "call" and k.x["path"].endswith(A("bw_last_key")) and k.a[0].ident() == _bws
+            parts = []
+            for variant in ("Some", "None"):
+                sb = specialise_switch(body, has_key, variant)
+                if sb.specialised[1] == 0:
+                    parts = None
+                    break
+                if site.bb not in sb.normal_blocks():
+                    continue
+                sub = [r for r in classify_block_writes(ck, rule, sb, _depth=1) if r["site"] == site]
+                for r in sub:
+                    r["body"] = sb
+                    r["case"] = variant
+                    r["bw"] = bws
+                parts += sub
+            if parts and all(p["kind"] in ("paired", "root") for p in parts) and {p["case"]: p["kind"] for p in parts} in ({"Some": "paired", "None": "root"}, {"Some": "paired"}):
+                out += parts
+                continue
         out.append(rec)
     return out
 
@@ -157,32 +182,47 @@ def r1_count(ck, F):
 # ---------------------------------------------------------------------------------------
 def r2_codec_plumb(ck, F):
     R = "C01-R2"
+    from .origin import Tracer
+    T = Tracer(F, stop_at=[A("writer_builder") + "::compression_type", A("writer_builder") + "::compression_level"])
+    wb = F.body(A("write_block"))
+    cs = calls(wb, A("compress"))
+    ck.exact(R, "compress calls in compress_and_write_block", len(cs), 1, F.config)
+    if len(cs) != 1:
+        return
+    csite = cs[0][0]
+    ca = wb.arg_exprs(csite)
+    ck.ob(R, "compress-args", any(True for _ in ca[2].calls(A("bw_finish"))), f"compress(.., .., {ca[2].show()}) is given the finished block", wb, csite)
+    want = {"codec": "param:" + A("writer_builder") + "::compression_type#", "level": "param:" + A("writer_builder") + "::compression_level#"}
+
+    def configured(o, which):
+        """the origin set is {the builder's setter parameter} + defaults (constants / unit variants)"""
+        return any(x.startswith(want[which]) for x in o) and all(x.startswith(want[which]) or x.startswith(("const:", "variant:")) for x in o)
+
     n = 0
+    seen_sets = {"codec": set(), "level": set()}
     for b in F.user_bodies():
         for site, c, t in calls(b, A("write_block")):
             a = b.arg_exprs(site)
             n += 1
-            ck.ob(R, f"write-site-codec/{b.path}", is_self_field(a[2], "compression_type") and is_self_field(a[3], "compression_level") and is_self_field(a[0], "writer"),
-                  f"compress_and_write_block(sink={a[0].show()}, codec={a[2].show()}, level={a[3].show()})", b, site)
-    ck.floor(R, "compress_and_write_block call sites", n, 5, F.config)
-    wb = F.body(A("write_block"))
-    cs = calls(wb, A("compress"))
-    ck.exact(R, "compress calls in compress_and_write_block", len(cs), 1, F.config)
-    for site, c, t in cs:
-        a = wb.arg_exprs(site)
-        buf_ok = any(True for _ in a[2].calls(A("bw_finish")))
-        ck.ob(R, "compress-args", is_arg(a[0], "compression_type") and is_arg(a[1], "compression_level") and buf_ok,
-              f"compress({a[0].show()}, {a[1].show()}, {a[2].show()})", wb, site)
+            bind = T.binding_for(wb.path, b, site)
+            ot = T.origins(wb, ca[0], bind)
+            ol = T.origins(wb, ca[1], bind)
+            seen_sets["codec"].add(frozenset(ot))
+            seen_sets["level"].add(frozenset(ol))
+            ck.ob(R, f"write-site-codec/{b.path}", configured(ot, "codec") and configured(ol, "level") and is_self_field(a[0], "writer"),
+                  f"compress_and_write_block(sink={a[0].show()}, ..): the codec reaching compress() comes from {sorted(ot)}, the level from {sorted(ol)} (must be the builder's configuration)", b, site)
+    ck.floor(R, "compress_and_write_block call sites", n, 4, F.config)   # 5 on the pinned tree
     fin = F.body(A("writer_into_inner"))
     for b, s, rv in aggregates(F, A("meta_struct")):
         if b.path != fin.path:
             continue
         e = agg_field_expr(b, s, rv, "compression_type")
-        ck.ob(R, "trailer-codec-from-field", is_self_field(e, "compression_type"), f"Metadata.compression_type := {e.show()}", b, s)
+        ot = T.origins(b, e)
+        ck.ob(R, "trailer-codec-from-field", configured(ot, "codec") and seen_sets["codec"] == {frozenset(ot)}, f"Metadata.compression_type := {e.show()} — origins {sorted(ot)}: the same configuration every block was compressed with", b, s)
     for b, s, rv in aggregates(F, A("writer_struct")):
-        for fld in ("compression_type", "compression_level", "block_size"):
-            e = agg_field_expr(b, s, rv, fld)
-            ck.ob(R, f"builder-to-writer/{fld}", is_self_field(e, fld), f"Writer.{fld} := {e.show()}", b, s)
+        if "block_size" in rv["fields"]:
+            e = agg_field_expr(b, s, rv, "block_size")
+            ck.ob(R, "builder-to-writer/block_size", is_self_field(e, "block_size"), f"Writer.block_size := {e.show()}", b, s)
     for fld in ("compression_type", "compression_level"):
         st = field_stores(F, A("writer_builder"), fld)
         for b, site, s in st:
@@ -377,7 +417,9 @@ def r4_index_pair(ck, F, R="C01-R4"):
     npaired = nroot = 0
     for path in (A("writer_insert"), A("writer_into_inner")):
         b = F.body(path)
-        for rec in classify_block_writes(ck, R, b):
+        b0 = b
+        for rec in classify_block_writes(ck, R, b0):
+            b = rec.get("body", b0)
             site = rec["site"]
             key = f"{b.path.split('::')[-1]}/{rec['bw']}"
             if rec["kind"] == "root":
@@ -425,7 +467,7 @@ def r5_finish_order(ck, F, R="C01-R5"):
     data = [s for s, c, t in ws if is_self_field(b.arg_exprs(s)[1], "block_writer")]
     levels = [s for s, c, t in ws if s not in data]
     ck.exact(R, "data-block flush sites in into_inner", len(data), 1, F.config)
-    ck.floor(R, "index-level flush sites in into_inner", len(levels), 2, F.config)
+    ck.floor(R, "index-level flush sites in into_inner", len(levels), 1, F.config)   # 2 on the pinned tree (with / without a last key); one site may serve both
     for d in data:
         bad = [l for l in levels if d.bb in b.reachable_from(l.bb)]
         ck.ob(R, "data-before-index", not bad and all(d.bb != l.bb for l in levels), "the pending data block is flushed before any index level (no path from an index flush back to the data flush)", b, d)
